@@ -107,3 +107,54 @@ Proof. rewrite takeN_app_le by lia. apply takeN_all. lia. Qed.
 
 Lemma dropN_exact {A} (a b : list A) : dropN (lenN a) (a ++ b) = b.
 Proof. rewrite dropN_app_ge by lia. replace (lenN a - lenN a) with 0 by lia. reflexivity. Qed.
+
+Lemma takeN_takeN {A} a b (l : list A) : takeN a (takeN b l) = takeN (N.min a b) l.
+Proof.
+  unfold takeN. rewrite firstn_firstn. f_equal. lia.
+Qed.
+
+Lemma dropN_dropN {A} a b (l : list A) : dropN a (dropN b l) = dropN (b + a) l.
+Proof.
+  unfold dropN. replace (N.to_nat (b + a)) with (N.to_nat b + N.to_nat a)%nat by lia.
+  generalize (N.to_nat a) as m. generalize (N.to_nat b) as n. clear a b.
+  intros n. revert l. induction n as [|n IH]; intros l m; [reflexivity|].
+  destruct l as [|x l]; cbn [skipn plus]; [destruct m; reflexivity|apply IH].
+Qed.
+
+Lemma dropN_takeN {A} a b (l : list A) : dropN a (takeN b l) = takeN (b - a) (dropN a l).
+Proof.
+  unfold dropN, takeN. rewrite skipn_firstn_comm. f_equal. lia.
+Qed.
+
+Lemma be_snoc l b : be (l ++ [b]) = be l * 256 + b.
+Proof. unfold be. rewrite fold_left_app. reflexivity. Qed.
+
+Lemma length_to_be n v : length (to_be n v) = n.
+Proof.
+  revert v. induction n as [|k IH]; intros v; cbn [to_be]; [reflexivity|].
+  rewrite app_length, IH. cbn. lia.
+Qed.
+
+Lemma lenN_to_be n v : lenN (to_be n v) = N.of_nat n.
+Proof. unfold lenN. rewrite length_to_be. reflexivity. Qed.
+
+Lemma be_to_be n v : be (to_be n v) = v mod 256 ^ N.of_nat n.
+Proof.
+  revert v. induction n as [|k IH]; intros v; cbn [to_be].
+  - cbn. rewrite N.mod_1_r. reflexivity.
+  - rewrite be_snoc, IH.
+    replace (N.of_nat (S k)) with (N.succ (N.of_nat k)) by lia.
+    rewrite N.pow_succ_r by lia.
+    rewrite (N.mod_mul_r v 256 (256 ^ N.of_nat k)) by (try lia; apply N.pow_nonzero; lia).
+    lia.
+Qed.
+
+Lemma be_to_be_small n v : v < 256 ^ N.of_nat n -> be (to_be n v) = v.
+Proof. intros H. rewrite be_to_be. apply N.mod_small. exact H. Qed.
+
+Lemma to_be_bytes_ok n v : bytes_ok (to_be n v) = true.
+Proof.
+  revert v. induction n as [|k IH]; intros v; cbn [to_be]; [reflexivity|].
+  unfold bytes_ok in *. rewrite forallb_app, IH. cbn [forallb andb]. unfold is_byte.
+  pose proof (N.mod_lt v 256). lia.
+Qed.
